@@ -157,6 +157,11 @@ func knownRace(j job, summary string) (key string, ok bool) {
 }
 
 func runJobs(cfg hlib.Config, o *hlib.Out, jobs []job) {
+	// backstop only: a hang inside fq is detected by the worker's own no-progress watchdog
+	deadline := 5 * time.Minute
+	if cfg.Thorough() {
+		deadline = 20 * time.Minute
+	}
 	exe, err := os.Executable()
 	if err != nil {
 		panic(err)
@@ -176,7 +181,7 @@ func runJobs(cfg hlib.Config, o *hlib.Out, jobs []job) {
 			sem <- struct{}{}
 			defer func() { <-sem }()
 			tick("conc " + j.text())
-			v, t, h, s := runJob(exe, j, 120*time.Second)
+			v, t, h, s := runJob(exe, j, deadline)
 			results[k] = res{v, t, h, s}
 			tick("conc done " + j.text())
 		}()
@@ -222,7 +227,7 @@ func modeConc(cfg hlib.Config, o *hlib.Out) {
 		{"stress2", 2000, 20000}, // two evaluators on the same stack
 		{"stop", 300, 3000},      // Stop racing with interrupts and with an evaluator
 		{"lin", 400, 6000},       // recorded histories for the linearizability check
-		{"interp", 25, 250},      // the real Interp: nested Eval/_eval against a free-running interrupt channel
+		{"interp", 25, 150},      // the real Interp: nested Eval/_eval against a free-running interrupt channel
 		{"crs", 200, 2000},       // ctxreadseeker: cancellation while the underlying read is in flight
 		{"bridge", 30, 300},      // cli signal bridge with real SIGINT
 	}
@@ -280,6 +285,30 @@ func (o *wout) fail(format string, a ...any) { fmt.Fprintf(o.w, "F "+format+"\n"
 func (o *wout) stat(k string, n int)         { fmt.Fprintf(o.w, "S %s %d\n", k, n) }
 
 var spinSink atomic.Int64
+
+// wprogress counts finished iterations of the running scenario; the worker's own watchdog turns
+// "no iteration finished for a minute" into a deadlock verdict, independent of how slow the
+// (race-instrumented, possibly heavily loaded) machine is overall.
+var wprogress atomic.Int64
+
+func iterDone() { wprogress.Add(1) }
+
+func workerWatchdog(o *wout, limit time.Duration) {
+	go func() {
+		last, since := wprogress.Load(), time.Now()
+		for {
+			time.Sleep(500 * time.Millisecond)
+			if p := wprogress.Load(); p != last {
+				last, since = p, time.Now()
+				continue
+			}
+			if time.Since(since) > limit {
+				fmt.Fprintf(os.Stdout, "F deadlock: no iteration finished for %s (after %d iterations)\nDONE\n", limit, last)
+				os.Exit(0)
+			}
+		}
+	}()
+}
 
 func spin(n int) {
 	for k := 0; k < n; k++ {
@@ -377,6 +406,7 @@ func evalLoop(c *freeStack, rnd *hlib.Rand, iters int, o *wout, who string, shar
 				return hits
 			}
 		}
+		iterDone()
 	}
 	return hits
 }
@@ -467,6 +497,7 @@ func scenStop(seed uint64, iters int, o *wout) {
 		for _, p := range pops {
 			p()
 		}
+		iterDone()
 	}
 }
 
@@ -609,6 +640,7 @@ func scenLin(seed uint64, iters int, o *wout) {
 	rnd := hlib.NewRand(seed)
 	for it := 0; it < iters; it++ {
 		fmt.Fprintf(o.w, "H %s\n", linOne(rnd.Fork()))
+		iterDone()
 	}
 	o.stat("histories", iters)
 }
@@ -675,6 +707,7 @@ func scenInterp(seed uint64, iters int, o *wout) {
 			}
 			values++
 		}
+		iterDone()
 	}
 	close(done)
 	<-fin
@@ -751,6 +784,7 @@ func scenCrs(seed uint64, iters int, o *wout) {
 			runtime.Gosched()
 		}
 		pop()
+		iterDone()
 	}
 	c.s.Stop()
 	o.stat("cancelled_in_flight", cancelled)
@@ -804,6 +838,7 @@ func scenBridge(seed uint64, iters int, o *wout) {
 			o.fail("%d interrupts from %d SIGINT", got, sent)
 			return
 		}
+		iterDone()
 	}
 	closeFn()
 	select {
@@ -833,6 +868,7 @@ func workerMain(args []string) {
 	seed, _ := strconv.ParseUint(args[1], 10, 64)
 	iters, _ := strconv.Atoi(args[2])
 	o := &wout{w: bufio.NewWriterSize(os.Stdout, 1<<20)}
+	workerWatchdog(o, 60*time.Second)
 	switch args[0] {
 	case "stress":
 		scenStress(seed, iters, o)
